@@ -5,11 +5,11 @@ package main
 
 import (
 	"fmt"
-	"regexp"
 	"go/constant"
 	"go/token"
 	"go/types"
 	"math/big"
+	"regexp"
 	"sort"
 	"strings"
 
@@ -25,7 +25,7 @@ type HarnessCfg struct {
 	TimeoutMs  int
 	Feasible   bool // prune infeasible loop iterations with the solver
 	Opts       map[string]string
-	ExpectFail bool // vacuity twin: must be sat
+	ExpectFail bool              // vacuity twin: must be sat
 	Stubs      map[string]string // full function name -> harness-package function
 	CapFunc    string            // function name whose source variables are captured
 	CapVars    map[string]bool   // captured variable names
@@ -81,58 +81,65 @@ type retState struct {
 }
 
 type Exec struct {
-	ts          *TermStore
-	prog        *ssa.Program
-	harnessPkg  *ssa.Package
-	cfg         *HarnessCfg
-	solver      *Portfolio
-	nextObj     int
-	absCache    map[string]absRes
-	nameCount   map[string]int
-	declared    map[string]bool
-	nondets     []*Term
-	assumptions []*Term
-	obligations []*Obligation
-	globalObj   map[*ssa.Global]*Object
-	globalInit  map[int]Value
-	initDone    map[*ssa.Package]bool
-	initRunning map[*ssa.Package]bool
-	notes       map[string]int
-	depth       int
-	loopCache   map[*ssa.Function]*loopForest
-	funcsSeen   map[string]bool
-	curFn       *ssa.Function
-	curInstr    ssa.Instruction
-	errObjs     map[string]*Object
-	typeObjs    map[string]*Object
-	steps       int
-	ufAxiomDone map[string]bool
-	strIntern   map[string]int
-	ghost       map[string]Value
-	negOf       map[int]*Term
-	dmCache     map[string][2]*Term
-	defOf       map[int]*Term // auxiliary constant -> its definitional equation
-	defAsserted map[int]bool
-	feltQ       map[string]*big.Int
-	pinRe       *regexp.Regexp
-	pinVals     map[string]*big.Int
-	byteProv    map[int]byteProv
-	dmSrc       map[int]dmSource
-	limbBuf     map[string]map[int]*big.Int
-	ufApps      map[string][]*ufApp
-	capAll      map[string][]*Term       // every distinct definition of a captured variable, in order
-	capLastReg  map[string]ssa.Value     // SSA register currently holding the variable
-	capSnaps    []map[string]*Term       // values of captured variables at each trigger
-	capCutOld   []map[string]*Term       // values replaced at each trigger
-	capCutNew   []map[string]*Term       // fresh constants introduced at each trigger
-	capFinal    map[string]*Term
-	capLastVal  map[string]Value
-	ufAppSeen   map[string]bool
-	lenientFn   *ssa.Function // top-level init function executed leniently (failing instructions are skipped)
-	folded      int
-	eagerPanics int
-	guardValid  map[int]bool
-	foldedIDs   []string
+	ts               *TermStore
+	prog             *ssa.Program
+	harnessPkg       *ssa.Package
+	cfg              *HarnessCfg
+	solver           *Portfolio
+	nextObj          int
+	absCache         map[string]absRes
+	nameCount        map[string]int
+	declared         map[string]bool
+	nondets          []*Term
+	assumptions      []*Term
+	obligations      []*Obligation
+	globalObj        map[*ssa.Global]*Object
+	globalInit       map[int]Value
+	initDone         map[*ssa.Package]bool
+	initRunning      map[*ssa.Package]bool
+	notes            map[string]int
+	depth            int
+	loopCache        map[*ssa.Function]*loopForest
+	funcsSeen        map[string]bool
+	curFn            *ssa.Function
+	curInstr         ssa.Instruction
+	errObjs          map[string]*Object
+	typeObjs         map[string]*Object
+	steps            int
+	ufAxiomDone      map[string]bool
+	strIntern        map[string]int
+	ghost            map[string]Value
+	negOf            map[int]*Term
+	dmCache          map[string][2]*Term
+	defOf            map[int]*Term // auxiliary constant -> its definitional equation
+	defAsserted      map[int]bool
+	feltQ            map[string]*big.Int
+	pinRe            *regexp.Regexp
+	pinVals          map[string]*big.Int
+	byteProv         map[int]byteProv
+	feltSquares      []feltSquare
+	feltSqrts        []feltSqrt
+	feltSquareSeen   map[int]bool
+	feltNegOf        map[int]*Term
+	guardLitCache    map[int]map[int]bool
+	guardDecideCache map[[2]int]int
+	dmSrc            map[int]dmSource
+	modSrc           map[int]*Term // remainder constant -> the term it is the residue of
+	limbBuf          map[string]map[int]*big.Int
+	ufApps           map[string][]*ufApp
+	capAll           map[string][]*Term   // every distinct definition of a captured variable, in order
+	capLastReg       map[string]ssa.Value // SSA register currently holding the variable
+	capSnaps         []map[string]*Term   // values of captured variables at each trigger
+	capCutOld        []map[string]*Term   // values replaced at each trigger
+	capCutNew        []map[string]*Term   // fresh constants introduced at each trigger
+	capFinal         map[string]*Term
+	capLastVal       map[string]Value
+	ufAppSeen        map[string]bool
+	lenientFn        *ssa.Function // top-level init function executed leniently (failing instructions are skipped)
+	folded           int
+	eagerPanics      int
+	guardValid       map[int]bool
+	foldedIDs        []string
 }
 
 func NewExec(prog *ssa.Program, cfg *HarnessCfg) *Exec {
@@ -142,7 +149,7 @@ func NewExec(prog *ssa.Program, cfg *HarnessCfg) *Exec {
 		initDone: map[*ssa.Package]bool{}, initRunning: map[*ssa.Package]bool{},
 		notes: map[string]int{}, loopCache: map[*ssa.Function]*loopForest{},
 		funcsSeen: map[string]bool{}, errObjs: map[string]*Object{}, typeObjs: map[string]*Object{},
-		ufAxiomDone: map[string]bool{}, strIntern: map[string]int{}, ghost: map[string]Value{}, negOf: map[int]*Term{}, dmCache: map[string][2]*Term{}, defOf: map[int]*Term{}, defAsserted: map[int]bool{}, feltQ: map[string]*big.Int{}, byteProv: map[int]byteProv{}, dmSrc: map[int]dmSource{}, limbBuf: map[string]map[int]*big.Int{}, guardValid: map[int]bool{}, ufApps: map[string][]*ufApp{}, capAll: map[string][]*Term{}, capLastReg: map[string]ssa.Value{}, capFinal: map[string]*Term{}, capLastVal: map[string]Value{}, ufAppSeen: map[string]bool{}}
+		ufAxiomDone: map[string]bool{}, strIntern: map[string]int{}, ghost: map[string]Value{}, negOf: map[int]*Term{}, dmCache: map[string][2]*Term{}, defOf: map[int]*Term{}, defAsserted: map[int]bool{}, feltQ: map[string]*big.Int{}, byteProv: map[int]byteProv{}, feltSquareSeen: map[int]bool{}, feltNegOf: map[int]*Term{}, guardLitCache: map[int]map[int]bool{}, guardDecideCache: map[[2]int]int{}, dmSrc: map[int]dmSource{}, modSrc: map[int]*Term{}, limbBuf: map[string]map[int]*big.Int{}, guardValid: map[int]bool{}, ufApps: map[string][]*ufApp{}, capAll: map[string][]*Term{}, capLastReg: map[string]ssa.Value{}, capFinal: map[string]*Term{}, capLastVal: map[string]Value{}, ufAppSeen: map[string]bool{}}
 }
 
 func (ex *Exec) note(s string) { ex.notes[s]++ }
@@ -788,10 +795,10 @@ func (ex *Exec) execBlock(act *activation, b *ssa.BasicBlock, st *PState) {
 				t := &PState{g: ex.ts.And(st.g, c), heap: st.heap, env: st.env}
 				f := &PState{g: ex.ts.And(st.g, ex.ts.Not(c)), heap: st.heap, env: st.env}
 				if ex.cfg.Feasible && ex.solver != nil {
-					if r := ex.check([]*Term{t.g}, nil); r.Status == "unsat" {
+					if r := ex.checkQuick([]*Term{t.g}); r == "unsat" {
 						t.g = ex.ts.Bool(false)
 						f.g = st.g
-					} else if r := ex.check([]*Term{f.g}, nil); r.Status == "unsat" {
+					} else if r := ex.checkQuick([]*Term{f.g}); r == "unsat" {
 						f.g = ex.ts.Bool(false)
 						t.g = st.g
 					}
@@ -1159,7 +1166,7 @@ func (ex *Exec) ensureInit(pkg *ssa.Package) {
 
 var skipInitPkgs = map[string]bool{
 	"os": true, "fmt": true, "runtime": true, "sync": true, "reflect": true, "unicode": true, "time": true,
-	"syscall": true, "internal/cpu": true, "golang.org/x/sys/cpu": true, "io": true, "errors": true,
+	"syscall": true, "internal/cpu": true, "golang.org/x/sys/cpu": true,
 	"strconv": true, "math/rand": true, "crypto/rand": true, "math/big": true,
 }
 
